@@ -32,7 +32,49 @@ def spec_by_type(ctx):
 
 
 def checks_table(ctx):
-    return ctx.f.table(CHECKS_MOD, '_CHECKS')
+    """attribute name -> the check callable check_value(name, value) applies to the value.  Found by running check_value on a
+    marker value for every attribute name of the message table (plus type and time) and taking the first function that is
+    entered with the marker as its argument - wherever the module keeps the association (one dictionary, two, a set of names
+    sharing a check, an if-chain)."""
+    cached = getattr(ctx, '_checks_table', None)
+    if cached is not None:
+        return cached
+    from .absint import EVENT_LOG
+    cv = ctx.p.func(CHECKS_MOD, 'check_value')
+    if cv is None:
+        raise AnalysisError(f'check_value not found in {CHECKS_MOD}')
+    names = ['type', 'time']
+    for row in specs(ctx):
+        for nm in row['value_names']:
+            if nm not in names:
+                names.append(nm)
+    ai = AbsInt(ctx.f)
+    ai.no_probe = True
+    table = {}
+    for name in sorted(names):
+        probe = Opaque(f'value of {name}')
+        found = []
+
+        def thunk():
+            try:
+                return ai.call_function(cv, [name, probe], {})
+            finally:
+                if not found:
+                    for e in EVENT_LOG:
+                        if e[0] == 'enter' and e[1] != cv.qname and len(e) > 4 and e[2] is probe:
+                            found.append(e)
+                            break
+        try:
+            ai.explore(thunk, limit=256)
+        except (Unsupported, AnalysisError):
+            pass
+        if found:
+            info, closure = found[0][3], found[0][4]
+            table[name] = FuncRef(info) if closure is None else ('closure', info, closure)
+    if not table:
+        raise AnalysisError(f'{cv.qname} applies no check function to the value for any attribute name')
+    ctx._checks_table = table
+    return table
 
 
 def callable_info(ref):
